@@ -187,8 +187,11 @@ class CoqCases:
         self.cases.append((cid, expr))
         return cid
 
-    def run(self, shard=40, jobs=16, timeout=900):
+    def run(self, shard=40, jobs=16, timeout=None):
         """returns dict id -> list of floats (None if the shard failed)"""
+        if timeout is None:
+            # the thorough tier evaluates much larger lattices inside Coq; on a busy machine 15 minutes per shard is not enough
+            timeout = 900 if globals().get("RUN_TIER", "quick") == "quick" else 5400
         if not self.cases:
             return {}, []
         d = os.path.join(WORK, "cases_" + self.name)
